@@ -138,6 +138,20 @@ Theorem C05_derived_tables : exists d, derive_all CODES COMPLEMENT = Some d /\
 Proof. exact derived_tables. Qed.
 Print Assumptions C05_derived_tables.
 
+(* the derivation is sound for ANY CODES / COMPLEMENT tables: when it succeeds (no KeyError) the derived complement of a code is a code
+   of the table whose base set is the image of the bases under COMPLEMENT; keys and their order are those of CODES *)
+Theorem C05_derivation_sound : forall codes compl d, derive_all codes compl = Some d ->
+  map fst d = map fst codes /\
+  forall c nts, In (c, nts) codes ->
+    exists c' nts' img, In (c, c') d /\ In (c', nts') codes /\
+      mapM (fun nt => lookupB nt compl) nts = Some img /\ (forall x, In x nts' <-> In x img).
+Proof. exact derivation_sound. Qed.
+Print Assumptions C05_derivation_sound.
+
+Example C05_witness_derive : exists d, derive_all [("A"%byte, bs "A"%bs); ("T"%byte, bs "T"%bs); ("W"%byte, bs "AT"%bs); ("X"%byte, bs "TA"%bs)]
+    [("A"%byte, "T"%byte); ("T"%byte, "A"%byte)] = Some d /\ lookupB "W"%byte d = Some "X"%byte.
+Proof. exact witness_derive. Qed.
+
 (* CODES is the IUPAC nucleotide code *)
 Theorem C05_codes_are_iupac : forallb codes_ok alphabet = true /\ length CODES = length alphabet.
 Proof. exact codes_are_iupac. Qed.
